@@ -326,6 +326,7 @@ type Exec struct {
 	extraNotes   map[string]int
 	ptrIDs       map[interface{}]int // fake addresses for %p
 	pools        map[*Val][]Val      // sync.Pool contents (LIFO)
+	clockReads   int                 // number of time.now calls on this path
 }
 
 func (ex *Exec) noteFunc(fn *ssa.Function, kind string) {
